@@ -9,6 +9,7 @@ float is `[+-]<m>p<e>` = ±m/2^e, i.e. the exact value of the float32/float64):
   bond <i> <j>                         append a row of array.bonds.as_array()                        -> ok
   write <h36> <hasid> <hasb> <hasocc> <hasq> <hasbonds>   PDBFile.set_structure -> ok <n> |line|line|…| | ERR:<cls>
   rawline <xhex>                       append a raw line to the file                                 -> ok
+  readmodel <k> <include_bonds>        the same with model=k (an AtomArray, reported as M=1)
   read <include_bonds>                 PDBFile.read(text).get_structure(extra_fields=all, include_bonds)
                                        -> ok M=<models> N=<atoms> A:<atoms> C:<coords in 1e-3> B:<bonds> | ERR:<cls>
 """
@@ -294,7 +295,7 @@ def gen_lean():
 
 
 # ---------------------------------------------------------------- structures <-> ops
-def struct_ops(S, read=True):
+def struct_ops(S, read=True, model_ks=None):
     ops = []
     for a in S["atoms"]:
         ops.append("atom {} {} {} {} {} {} {} {} {} {} {}".format(
@@ -308,6 +309,8 @@ def struct_ops(S, read=True):
     ops.append("write {} {} {} {} {} {}".format(*(int(f[k]) for k in ("h36", "id", "b", "occ", "q", "bonds"))))
     if read:
         ops.append(f"read {int(f['bonds'])}")
+        for k in (model_ks or []):
+            ops.append(f"readmodel {k} {int(f['bonds'])}")
     return ops
 
 
@@ -371,13 +374,17 @@ def _setup_ccd():
         info.set_ccd_path(FIXTURE_CCD)
 
 
-def _read_back(lines, include_bonds):
+def _read_back(lines, include_bonds, model=None):
     from biotite.structure.io.pdb import PDBFile
     _setup_ccd()
     text = "\n".join(lines) + "\n"
     f = PDBFile.read(io.StringIO(text))
-    return f.get_structure(model=None, extra_fields=["atom_id", "b_factor", "occupancy", "charge"],
-                           include_bonds=include_bonds)
+    st = f.get_structure(model=model, extra_fields=["atom_id", "b_factor", "occupancy", "charge"],
+                         include_bonds=include_bonds)
+    if model is not None:
+        import biotite.structure as struc
+        st = struc.stack([st])
+    return st
 
 
 def _canon_read(st):
@@ -425,6 +432,8 @@ def run_impl(case):
                 elif w[0] == "rawline":
                     lines.append(unhx(w[1]))
                     out.append("ok")
+                elif w[0] == "readmodel":
+                    out.append(_canon_read(_read_back(lines, w[2] == "1", model=int(w[1]))) if lines else "no-file")
                 elif w[0] == "read":
                     out.append(_canon_read(_read_back(lines, w[1] == "1")) if lines else "no-file")
                 else:
@@ -644,6 +653,26 @@ def oracle(case):
                         bad = f"box {u0} != {u1}"
         if bad:
             v.append(("C07/roundtrip/" + bad.split()[0], bad))
+            return v
+        # --- model selection: model k / -k is exactly that model, anything else is refused
+        M = len(S["models"])
+        for k in list(range(-2 * M - 2, 2 * M + 3)):
+            want = k - 1 if 1 <= k <= M else (M + k if -M <= k <= -1 else None)
+            try:
+                one = _read_back(f.lines, False, model=k)
+            except Exception:  # noqa: BLE001
+                if want is not None:
+                    v.append(("C07/model-index/refused-valid", f"get_structure(model={k}) raised for a file with {M} models"))
+                    return v
+                continue
+            if want is None:
+                v.append((f"C07/model-index/out-of-range-{'negative' if k < 0 else 'positive'}-accepted",
+                          f"get_structure(model={k}) on a file with {M} models returned {one.array_length()} atoms instead of an error"))
+                return v
+            if one.array_length() != n or any(abs(float(one.coord[0, i, d]) - S["models"][want][i][d]) > 0.001
+                                              for i in range(n) for d in range(3)):
+                v.append(("C07/model-index/wrong-model", f"get_structure(model={k}) is not model {want + 1} of {M}"))
+                return v
     return v
 
 
@@ -861,7 +890,8 @@ def gen_raw(rng):
         lines.pop(-2)          # models of different length -> InvalidFileError
     if rng.random() < 0.3:
         lines = [l.rstrip() for l in lines]      # PDBFile.read pads short lines
-    return {"kind": "rawread", "ops": ["rawline " + hx(l) for l in lines] + ["read 0"]}
+    return {"kind": "rawread", "ops": ["rawline " + hx(l) for l in lines] + ["read 0"] +
+            [f"readmodel {k} 0" for k in rng.sample(range(-nm - 2, nm + 3), 2)]}
 
 
 def h36_numbers(rng, count):
@@ -908,7 +938,9 @@ def cases(rng, tier):
     n_struct, n_mal, n_raw, n_h36 = (450, 220, 150, 5000) if quick else (6000, 3000, 2000, 60000)
     for _ in range(n_struct):
         S = gen_struct(rng)
-        c = {"kind": "roundtrip", "ops": struct_ops(S)}
+        M = len(S["models"])
+        ks = rng.sample([k for k in range(-M - 3, M + 3)], 3)
+        c = {"kind": "roundtrip", "ops": struct_ops(S, model_ks=ks)}
         if rng.random() < 0.2 and len(S["models"]) == 1:
             c["extra"] = {"stack1": True}
         yield c
